@@ -3,7 +3,7 @@ PROP = {"engines": [("array", "default"), ("sized", "default")],
                       "remove_all, get_at, get_last, index_of, contains, reverse, filter_mut, trim, size) from any state satisfying the invariant, for every index below 2^64, "
                       "every element value, predicate, capacity >= 1 and factor, either equals the ideal-list step (status, out-value, contents) or is a refused allocation that "
                       "leaves the array literally unchanged; lifted to all histories from the constructor. The swap loop of reverse and the cluster loop of filter_mut are "
-                      "transcribed and proved equal to rev / filter; growth and trim preserve contents. All range and growth guards are regenerated from cc_array.c on every run. "
+                      "transcribed and proved equal to rev / filter; growth and trim preserve contents. All range and growth guards are re-translated from cc_array.c on every run and machine-proved equal to the terms the model uses (Generated/SrcEq_array.v). "
                       "The model (also map, reduce, sort glue, contains_value, subarray/copies/filter, iterators, zip iterators, CC_Stack) is run against the compiled code on "
                       "exhaustive short histories, every boundary index on sizes 0-5, iterator programs, fault plans and random long histories.",
         "assumptions": ["CC_ArraySized is tied to the same model by correspondence: an element of 1, 3 or 8 bytes is the little-endian image of a number, the caller's buffer is overwritten after every call (private copy), and the whole CC_Array trace scope (minus reduce / contains_value / copy_deep, which the sized API lacks or types differently) is replayed on cc_array_sized.c; the theorems are about the shared model",
